@@ -230,6 +230,10 @@ void arena::process(thread_data& tls) {
     // Arena slot detach (arena may be used in market::process)
     // TODO: Consider moving several calls below into a new method(e.g.detach_arena).
     tls.my_arena_slot->release();
+    // A thread blocked in task_arena::execute() waits for a free slot, and a leaving worker frees one too:
+    // wake a waiter, otherwise it sleeps until some worker returns to run its delegated task (never, if
+    // the arena is not allotted a worker any more)
+    my_exit_monitors.notify_one(); // do not relax!
     tls.my_arena_slot = nullptr;
     tls.my_inbox.detach();
     __TBB_ASSERT(tls.my_inbox.is_idle_state(true), nullptr);
